@@ -37,10 +37,17 @@ FALSE = ("k", False)
 NONE = ("k", None)
 
 
+_NEG_CMP = {"<": ">=", "<=": ">", ">": "<=", ">=": "<", "==": "!=", "!=": "=="}
+
+
 def app(op, *args):
     # python-level double negation: `not (not x)` has the truth value of x (guards and tests only see truth values)
     if op == "not" and len(args) == 1 and isinstance(args[0], tuple) and len(args[0]) == 3 and args[0][0] == "app" and args[0][1] == "not":
         return args[0][2]
+    # python-level negation of a comparison is the opposite comparison (`not` is never applied to z3 terms: bool() raises)
+    if op == "not" and len(args) == 1 and isinstance(args[0], tuple) and len(args[0]) == 4 and args[0][0] == "app" \
+            and args[0][1] in _NEG_CMP:
+        return app(_NEG_CMP[args[0][1]], args[0][2], args[0][3])
     # one spelling for the negative comparisons of python: `a is not b` is `not (a is b)`, `a not in b` is `not (a in b)`
     # one spelling for differences: a + (-b) is a - b
     if op == "+" and len(args) == 2:
@@ -64,6 +71,8 @@ def mkphi(g, a, b):
     """(a if g else b) with a positive guard: `a if not c else b` is `b if c else a`"""
     while isinstance(g, tuple) and len(g) == 3 and g[0] == "app" and g[1] == "not":
         g, a, b = g[2], b, a
+    if isinstance(g, tuple) and len(g) == 4 and g[0] == "app" and g[1] == "!=":
+        g, a, b = ("app", "==", g[2], g[3]), b, a
     return ("phi", g, a, b)
 
 
